@@ -11,6 +11,9 @@ import (
 
 func init() {
 	Registry["C01"] = checkC01
+	Controls["C01"] = map[string][2]string{
+		"R01.9": {"badStdJSONDecode", "goodK8sJSONDecode"},
+	}
 }
 
 func checkC01(r *Report, p *Program) {
@@ -51,6 +54,8 @@ func checkC01(r *Report, p *Program) {
 	deleteTable(r, p, "R01.7")
 	// the rollout gate and the merge compare against the hook's raw answer (shared with C06/C07)
 	lastAppliedIsHookAnswer(r, p, "R01.8")
+	jsonDecodingPreservesInts(r, p, "R01.9")
+	everyCandidateTried(r, p, "R01.10")
 }
 
 func r01_children(r *Report, p *Program) {
